@@ -5,6 +5,7 @@ package webdav
 import (
 	"io"
 	"io/ioutil"
+	"net"
 	"net/http"
 	"os"
 	"path/filepath"
@@ -36,6 +37,7 @@ const (
 const verifModelRoot = "/srv/dav-root"
 
 var verifUniverseQuick = []string{"/", "/a", "/b", "/a/a", "/a/b"}
+var verifUniverseDeep = []string{"/", "/a", "/b", "/a/a", "/a/b", "/a/a/a"}
 var verifUniverseThorough = []string{"/", "/a", "/b", "/a/a", "/a/b", "/b/a", "/b/b", "/a/a/a"}
 
 type verifTree struct {
@@ -141,6 +143,7 @@ func symTree(paths []string) *verifTree {
 // ---------------------------------------------------------------------------
 // model state (symbolic run)
 
+var verifOpenFault bool
 var verifFS *verifTree
 var verifHandles map[*os.File]int
 var verifOSCalls []string // every path handed to the operating system
@@ -265,6 +268,10 @@ func verifStubOpenFile(name string, flag int, perm os.FileMode) (*os.File, error
 			return nil, &os.PathError{Op: "open", Path: name, Err: syscall.EISDIR}
 		}
 	case kFile:
+		if verifOpenFault && !writing {
+			// a file that can be stat'ed but not opened (e.g. a socket)
+			return nil, &os.PathError{Op: "open", Path: name, Err: syscall.ENXIO}
+		}
 		if flag&os.O_CREATE != 0 && flag&os.O_EXCL != 0 {
 			return nil, &os.PathError{Op: "open", Path: name, Err: syscall.EEXIST}
 		}
@@ -519,6 +526,7 @@ func verifMaterialise(t *verifTree) string {
 		verifFS = t.copy()
 		verifHandles = map[*os.File]int{}
 		verifOSCalls = nil
+		verifOpenFault = false
 		return verifModelRoot
 	}
 	dir, err := ioutil.TempDir("", "verif-dav-")
@@ -545,6 +553,10 @@ func verifMaterialise(t *verifTree) string {
 }
 
 func verifCleanup() {
+	for _, l := range verifListeners {
+		l.Close()
+	}
+	verifListeners = nil
 	if verifNativeRoot != "" {
 		os.RemoveAll(verifNativeRoot)
 		verifNativeRoot = ""
@@ -580,3 +592,17 @@ func verifReadTree(paths []string, root string) (*verifTree, []string) {
 	})
 	return t, extra
 }
+
+// verifMakeUnopenable (native run): replaces the file by a unix socket,
+// which can be stat'ed but fails to open with ENXIO.
+func verifMakeUnopenable(path string) bool {
+	os.Remove(path)
+	l, err := net.Listen("unix", path)
+	if err != nil {
+		return false
+	}
+	verifListeners = append(verifListeners, l)
+	return true
+}
+
+var verifListeners []net.Listener
